@@ -75,6 +75,58 @@ def l2_effects(tree, rep):
     rep.floor('module-level helpers checked for L2', helpers, 9)
 
 
+ONE_SHOT = ('iter', 'map', 'filter', 'zip', 'enumerate', 'reversed', 'islice', 'chain', 'count', 'cycle')
+
+
+def l2b_shared_iterators(tree, rep):
+    """A line definition may be evaluated several times (it is re-attempted after every dependency it waited for) and
+    aborted in the middle.  A one-shot iterator - a generator expression, iter(), map(), zip() ... - created once outside
+    the definition and consumed inside it is state shared between those evaluations: a re-attempt continues where the
+    aborted one stopped.  Rule: no name bound to a one-shot iterator at class-body, constructor or module level is used
+    inside a nested lambda / def of a form module."""
+    an = get_analysis(tree)
+    n = 0
+    for y in an.cat.years:
+        for rel in tree.form_modules(y):
+            mod = tree.module(rel)
+            scopes = [mod] + [x for x in ast.walk(mod) if isinstance(x, (ast.FunctionDef, ast.ClassDef))]
+            for sc in scopes:
+                shots = {}
+                for st in ast.walk(sc):
+                    if not (isinstance(st, ast.Assign) and len(st.targets) == 1 and isinstance(st.targets[0], ast.Name)):
+                        continue
+                    owner = enclosing_scope(st)
+                    if not (owner is sc or (isinstance(sc, ast.Module) and owner is None)):
+                        continue          # bound in a nested scope: looked at when that scope is `sc`
+                    v = st.value
+                    fname = None
+                    if isinstance(v, ast.Call):
+                        fname = v.func.id if isinstance(v.func, ast.Name) else v.func.attr if isinstance(v.func, ast.Attribute) else None
+                    if isinstance(v, ast.GeneratorExp) or fname in ONE_SHOT:
+                        shots[st.targets[0].id] = st
+                if not shots:
+                    continue
+                for inner in ast.walk(sc):
+                    if inner is sc or not isinstance(inner, (ast.Lambda, ast.FunctionDef)):
+                        continue
+                    used = {x.id for x in ast.walk(inner) if isinstance(x, ast.Name) and isinstance(x.ctx, ast.Load)} & set(shots)
+                    local = {a.arg for a in inner.args.args}
+                    for nm in sorted(used - local):
+                        n += 1
+                        rep.ob('L2b', f'{rel}@{nm}', False,
+                               f'{rel}: `{nm}` is a one-shot iterator created once ({unparse(shots[nm].value, 50)}) and consumed inside a line definition: '
+                               f'an evaluation that is aborted and retried continues where the first one stopped, so the stored value is computed from a partial view', f'{rel}:{inner.lineno}')
+    rep.ob('L2b', 'no-shared-one-shot-iterators', True)
+    return n
+
+
+def enclosing_scope(node):
+    p = getattr(node, 'parent', None)
+    while p is not None and not isinstance(p, (ast.FunctionDef, ast.Lambda, ast.ClassDef)):
+        p = getattr(p, 'parent', None)
+    return p
+
+
 def lines_with_try(tree):
     an = get_analysis(tree)
     out = []
